@@ -153,52 +153,70 @@ def decOffs : Nat → Bytes → Option (List Int × Bytes)
     | some (os, rest) => some (dec16 hi lo :: os, rest)
   | _ + 1, _ => none
 
-/-- one immediate of kind `kind` at the head of `bs`; `plen` = len(program) (the "too many items" guard) -/
+def decByte (bs : Bytes) : Option (RImm × Bytes) :=
+  match bs with
+  | b :: r => some (.byte b, r)
+  | [] => none
+
+def decOff2 (bs : Bytes) : Option (RImm × Bytes) :=
+  match bs with
+  | hi :: lo :: r => some (.off2 (dec16 hi lo), r)
+  | _ => none
+
+def decVoff (bs : Bytes) : Option (RImm × Bytes) :=
+  match readU bs 10 with
+  | some (u, k) => some (.voff (unzz u) k, bs.drop k)
+  | none => none
+
+def decUint (bs : Bytes) : Option (RImm × Bytes) :=
+  match readU bs 10 with
+  | some (v, k) => some (.uint v k, bs.drop k)
+  | none => none
+
+def decBytes (bs : Bytes) : Option (RImm × Bytes) :=
+  match readU bs 10 with
+  | some (l, k) => if (bs.drop k).length < l then none else some (.bytes k ((bs.drop k).take l), (bs.drop k).drop l)
+  | none => none
+
+def decIntsImm (plen : Nat) (bs : Bytes) : Option (RImm × Bytes) :=
+  match readU bs 10 with
+  | some (n, k) =>
+    if plen < n then none else
+    match decInts n (bs.drop k) with
+    | some (vs, r) => some (.ints k vs, r)
+    | none => none
+  | none => none
+
+def decBytessImm (plen : Nat) (bs : Bytes) : Option (RImm × Bytes) :=
+  match readU bs 10 with
+  | some (n, k) =>
+    if plen < n then none else
+    match decBytess n (bs.drop k) with
+    | some (bss, r) => some (.bytess k bss, r)
+    | none => none
+  | none => none
+
+def decOffsImm (bs : Bytes) : Option (RImm × Bytes) :=
+  match bs with
+  | n :: r =>
+    match decOffs n r with
+    | some (os, r') => some (.offs os, r')
+    | none => none
+  | [] => none
+
+/-- one immediate of kind `kind` (the immKind enum) at the head of `bs`; `plen` = len(program) (the "too many items" guard) -/
 def decImm (plen kind : Nat) (bs : Bytes) : Option (RImm × Bytes) :=
-  if kind = 0 ∨ kind = 1 then
-    match bs with
-    | b :: r => some (.byte b, r)
-    | [] => none
-  else if kind = 2 then
-    match bs with
-    | hi :: lo :: r => some (.off2 (dec16 hi lo), r)
-    | _ => none
-  else if kind = 8 then
-    match readU bs 10 with
-    | some (u, k) => some (.voff (unzz u) k, bs.drop k)
-    | none => none
-  else if kind = 3 then
-    match readU bs 10 with
-    | some (v, k) => some (.uint v k, bs.drop k)
-    | none => none
-  else if kind = 4 then
-    match readU bs 10 with
-    | some (l, k) => if (bs.drop k).length < l then none else some (.bytes k ((bs.drop k).take l), (bs.drop k).drop l)
-    | none => none
-  else if kind = 5 then
-    match readU bs 10 with
-    | some (n, k) =>
-      if plen < n then none else
-      match decInts n (bs.drop k) with
-      | some (vs, r) => some (.ints k vs, r)
-      | none => none
-    | none => none
-  else if kind = 6 then
-    match readU bs 10 with
-    | some (n, k) =>
-      if plen < n then none else
-      match decBytess n (bs.drop k) with
-      | some (bss, r) => some (.bytess k bss, r)
-      | none => none
-    | none => none
-  else if kind = 7 then
-    match bs with
-    | n :: r =>
-      match decOffs n r with
-      | some (os, r') => some (.offs os, r')
-      | none => none
-    | [] => none
-  else none
+  match kind with
+  | 0 => decByte bs
+  | 1 => decByte bs
+  | 2 => decOff2 bs
+  | 3 => decUint bs
+  | 4 => decBytes bs
+  | 5 => decIntsImm plen bs
+  | 6 => decBytessImm plen bs
+  | 7 => decOffsImm bs
+  | 8 => decVoff bs
+  | _ => none
 
 def decImms (plen : Nat) : List Nat → Bytes → Option (List RImm × Bytes)
   | [], bs => some ([], bs)
@@ -354,7 +372,7 @@ structure Env where
   maxStringSize : Nat
   backBranchVersion : Nat
   initWidth : Nat
-  deadDefines : Bool
+  constRule : Nat
 
 def Env.look (env : Env) (v : Nat) : Nat → Option Nat → Option Spec := getSpec env.tbl v
 
@@ -554,14 +572,19 @@ def tokBytes : Tok → Except Err Bytes
   | .name _ => .error .unmodelled
   | _ => .error .syntax
 
-/-- the row OpsByName[v][name]: newest version ≤ v, last listed (table 0 is the alias of table 1) -/
-def byName (env : Env) (v : Nat) (name : String) : Option Spec :=
-  env.rows.foldl (fun acc r =>
-    if r.name = name ∧ r.version ≤ max v 1 then
+/-- newest version ≤ max v 1, last listed on ties -/
+def pickLatest (v : Nat) (rows : List Spec) : Option Spec :=
+  rows.foldl (fun acc r =>
+    if r.version ≤ max v 1 then
       match acc with
       | none => some r
       | some a => if a.version ≤ r.version then some r else some a
     else acc) none
+
+/-- OpsByName[v][name]: the newest row of that name registered at a version ≤ v, last listed; table 0 is the alias of
+    table 1 and holds copies whose Version field is 0 -/
+def byName (env : Env) (v : Nat) (name : String) : Option Spec :=
+  (pickLatest v (env.rows.filter (fun r => r.name = name))).map (fun s => if v = 0 then { s with version := 0 } else s)
 
 def groupOf (env : Env) (key : String) : Option Group := findGroup env.groups key
 
@@ -672,10 +695,12 @@ structure PInstr where
 structure PState where
   out : List PInstr := []          -- reversed
   labels : List (LName × Nat) := []
-  intcN : Nat := 0                  -- len(ops.intc) as far as explicit blocks define it
+  intcN : Nat := 0                  -- len(ops.intc) as far as explicit blocks define it (the last live intcblock)
   bytecN : Nat := 0
-  deadIntc : Nat := 0               -- most constants of a block seen in dead code
+  deadIntc : Nat := 0               -- most constants of an intcblock seen in dead code
   deadBytec : Nat := 0
+  anyIntc : Nat := 0                -- most constants of any intcblock seen
+  anyBytec : Nat := 0
   dead : Bool := false              -- ops.known.deadcode
   deriving Repr
 
@@ -723,48 +748,130 @@ def tokBytess (maxLen : Nat) : List Tok → Except Err (List Bytes)
       | .ok bs => .ok (b :: bs)
       | .error x => .error x
 
-/-- asmDefault: one token per immediate; only byte (plain or field) and int8 immediates -/
-def asmDefaultImms (env : Env) (v : Nat) : List OpTables.Imm → List Tok → Except Err (List PImm)
+/-- a field immediate: the name is looked up among the visible names of the declared group (FieldGroup.SpecByName); the
+    field must be visible in the group the op consults and not newer than the program (asmDefault: `fs.Version() >
+    ops.Version`; asmItxnField: itxVersion; asmAppParamsSet: setVersion) -/
+def tokField (env : Env) (v : Nat) (im : OpTables.Imm) (t : Tok) : Except Err Nat :=
+  match t, groupOf env im.declGroup, groupOf env im.group with
+  | .name s, some gd, some ge =>
+    match fieldByName gd s with
+    | none => .error .field
+    | some fr =>
+      match ge.fields[fr.idx]? with
+      | none => .error .field
+      | some fe => if fe.name = "" ∨ v < fe.version then .error .field else .ok fr.idx
+  | _, _, _ => .error .field
+
+/-- the immediates of one instruction, token by token, by immediate kind. List kinds (ints, bytess, labels) take all
+    remaining tokens and are always the only immediate of their op. -/
+def parseImms (env : Env) (v : Nat) : List OpTables.Imm → List Tok → Except Err (List PImm)
   | [], [] => .ok []
-  | im :: ims, t :: ts =>
-    let one : Except Err PImm :=
-      if im.kind = 0 then
-        if im.declGroup ≠ "" then
-          match t, groupOf env im.declGroup with
-          | .name s, some g =>
-            match fieldByName g s with
-            | none => .error .field
-            | some fr => if v < fr.version then .error .field else .ok (.val (.byte fr.idx))
-          | _, _ => .error .field
-        else
-          match tokByte t with
-          | .ok b => .ok (.val (.byte b))
-          | .error x => .error x
-      else if im.kind = 1 then
-        match tokInt8 t with
-        | .ok b => .ok (.val (.byte b))
-        | .error x => .error x
-      else .error .syntax
-    match one, asmDefaultImms env v ims ts with
-    | .ok a, .ok b => .ok (a :: b)
-    | .error x, _ => .error x
-    | _, .error x => .error x
-  | _, _ => .error .syntax
-
-/-- writeIntc / writeBytec: the short forms for the first four constants, and the definedness rule -/
-def constLoad (env : Env) (v : Nat) (base : String) (idx defined deadDefined : Nat) : Except Err PInstr :=
-  let specE : Except Err PInstr :=
-    if idx < 4 then
-      match byName env v (base ++ "_" ++ toString idx) with
-      | some s => .ok ⟨s, []⟩
-      | none => .error .syntax
+  | [], _ :: _ => .error .syntax
+  | im :: ims, toks =>
+    if im.kind = 5 then
+      if ims ≠ [] then .error .unmodelled else
+      match tokNats toks with
+      | .ok ns => .ok [.val (.ints ns)]
+      | .error x => .error x
+    else if im.kind = 6 then
+      if ims ≠ [] then .error .unmodelled else
+      match tokBytess env.maxStringSize toks with
+      | .ok bs => .ok [.val (.bytess bs)]
+      | .error x => .error x
+    else if im.kind = 7 then
+      if ims ≠ [] then .error .unmodelled else
+      if 255 < toks.length then .error .syntax else
+      match tokLabels toks with
+      | .ok ns => .ok [.labs ns]
+      | .error x => .error x
     else
-      match byName env v base with
-      | some s => .ok ⟨s, [.val (.byte idx)]⟩
-      | none => .error .syntax
-  if idx < defined ∨ (env.deadDefines ∧ idx < deadDefined) then specE else .error .undefinedConst
+      match toks with
+      | [] => .error .syntax
+      | t :: ts =>
+        let one : Except Err PImm :=
+          if im.kind = 0 then
+            if im.declGroup ≠ "" then
+              match tokField env v im t with
+              | .ok b => .ok (.val (.byte b))
+              | .error x => .error x
+            else
+              match tokByte t with
+              | .ok b => .ok (.val (.byte b))
+              | .error x => .error x
+          else if im.kind = 1 then
+            if im.declGroup ≠ "" then .error .unmodelled else
+            match tokInt8 t with
+            | .ok b => .ok (.val (.byte b))
+            | .error x => .error x
+          else if im.kind = 2 ∨ im.kind = 8 then
+            match tokLabel t with
+            | .ok n => .ok (.lab (im.kind = 2) n)
+            | .error x => .error x
+          else if im.kind = 3 then
+            match tokNat t with
+            | some n => .ok (.val (.uint n))
+            | none => .error .syntax
+          else if im.kind = 4 then
+            match tokBytes t with
+            | .ok b => if env.maxStringSize < b.length then .error .syntax else .ok (.val (.bytes b))
+            | .error x => .error x
+          else .error .unmodelled
+        match one with
+        | .error x => .error x
+        | .ok a =>
+          match parseImms env v ims ts with
+          | .ok b => .ok (a :: b)
+          | .error x => .error x
 
-/-- the spec and asm function an instruction statement is assembled with (getSpec with the pseudo-op table) -/
+/-- the asm functions of assembler.go the model knows -/
+inductive FnClass
+  | dflt | substring | intc | bytec | arg | itxn | gitxn | fieldSet | branch2 | branchV | switch
+  | pushInt | pushBytes | pushInts | pushBytess | intcBlock | bytecBlock | unknown
+  deriving DecidableEq, Repr
+
+def classify (fn : String) : FnClass :=
+  if fn = "asmDefault" then .dflt
+  else if fn = "asmSubstring" then .substring
+  else if fn = "asmIntC" then .intc
+  else if fn = "asmByteC" then .bytec
+  else if fn = "asmArg" then .arg
+  else if fn = "asmItxn" then .itxn
+  else if fn = "asmGitxn" then .gitxn
+  else if fn = "asmItxnField" ∨ fn = "asmAppParamsSet" then .fieldSet
+  else if fn = "asmBranch2B" then .branch2
+  else if fn = "asmBranchVarint" then .branchV
+  else if fn = "asmSwitch" then .switch
+  else if fn = "asmPushInt" then .pushInt
+  else if fn = "asmPushBytes" then .pushBytes
+  else if fn = "asmPushInts" then .pushInts
+  else if fn = "asmPushBytess" then .pushBytess
+  else if fn = "asmIntCBlock" then .intcBlock
+  else if fn = "asmByteCBlock" then .bytecBlock
+  else .unknown
+
+def classOf (env : Env) (s : Spec) : FnClass := classify (asmFnOf env s)
+
+def plainBytes (s : Spec) (n : Nat) : Bool :=
+  kindsOf s == List.replicate n 0 && s.imms.all (fun im => im.declGroup == "")
+
+/-- the immediate kinds each asm function handles (anything else in the table makes the model answer `unmodelled`) -/
+def shapeOK (c : FnClass) (s : Spec) : Bool :=
+  match c with
+  | .dflt => (kindsOf s).all (fun k => k == 0 || k == 1)
+  | .substring => plainBytes s 2
+  | .intc | .bytec | .arg => plainBytes s 1
+  | .itxn | .fieldSet => kindsOf s == [0] && s.imms.all (fun im => im.declGroup != "")
+  | .gitxn => kindsOf s == [0, 0]
+  | .branch2 => kindsOf s == [2]
+  | .branchV => kindsOf s == [8]
+  | .switch => kindsOf s == [7]
+  | .pushInt => kindsOf s == [3]
+  | .pushBytes => kindsOf s == [4]
+  | .pushInts | .intcBlock => kindsOf s == [5]
+  | .pushBytess | .bytecBlock => kindsOf s == [6]
+  | .unknown => false
+
+/-- the spec an instruction statement is assembled with (getSpec with the pseudo-op table) -/
 def specFor (env : Env) (v : Nat) (name : String) (argc : Nat) : Except Err Spec :=
   if env.pseudoFull.contains name then .error .unmodelled else
   match env.pseudoArgc.find? (fun p => p.1 = name) with
@@ -780,127 +887,93 @@ def specFor (env : Env) (v : Nat) (name : String) (argc : Nat) : Except Err Spec
     | some s => .ok s
     | none => .error .syntax
 
-/-- one instruction statement: the asm function of the spec -/
+/-- asmItxn / asmGitxn with one extra immediate assemble itxna / gitxna -/
+def arityAlt (env : Env) (v : Nat) (alt : String) (s : Spec) (args : List Tok) : Except Err (Spec × List Tok) :=
+  if args.length = s.imms.length then .ok (s, args)
+  else if args.length = s.imms.length + 1 then
+    match byName env v alt with
+    | none => .error .syntax
+    | some s' => if classOf env s' = .dflt ∧ shapeOK .dflt s' then .ok (s', args) else .error .unmodelled
+  else .error .syntax
+
+/-- arg_N / intc_N / bytec_N -/
+def shortName (base : String) (n : Nat) : String := base ++ "_" ++ toString n
+
+/-- asmArg / asmIntC / asmByteC with a constant index below 4 assemble arg_N / intc_N / bytec_N (no immediate) -/
+def shortAlt (env : Env) (v : Nat) (s : Spec) (args : List Tok) : Except Err (Spec × List Tok) :=
+  match args with
+  | [a] =>
+    match tokByte a with
+    | .error x => .error x
+    | .ok n =>
+      if n < 4 then
+        match byName env v (shortName s.name n) with
+        | some s' => if s'.imms = [] ∧ classOf env s' = .dflt then .ok (s', []) else .error .unmodelled
+        | none => .error .syntax
+      else .ok (s, args)
+  | _ => .error .syntax
+
+/-- the asm functions that assemble with another spec than the one looked up -/
+def altSpec (env : Env) (v : Nat) (c : FnClass) (s : Spec) (args : List Tok) : Except Err (Spec × List Tok) :=
+  match c with
+  | .itxn => arityAlt env v "itxna" s args
+  | .gitxn => arityAlt env v "gitxna" s args
+  | .arg | .intc | .bytec => shortAlt env v s args
+  | _ => .ok (s, args)
+
+/-- writeIntc / writeBytec: "intc N is not defined" unless a constant block the assembler has seen defines index N.
+    `constRule`: 0 = only the current live block, 1 = also blocks seen in dead code, 2 = any block seen -/
+def constDefined (env : Env) (idx cur deadMax anyMax : Nat) : Bool :=
+  decide (idx < cur) || (env.constRule == 1 && decide (idx < deadMax)) || (env.constRule == 2 && decide (idx < anyMax))
+
+/-- the constant index of an explicit `intc N` / `bytec N` statement -/
+def constIdx (args : List Tok) : Except Err Nat :=
+  match args with
+  | [a] => tokByte a
+  | _ => .error .syntax
+
+/-- the asm function's own checks after the immediates are written, and what the assembler learns about constant blocks -/
+def postAsm (env : Env) (c : FnClass) (st : PState) (args : List Tok) : Except Err PState :=
+  match c with
+  | .substring =>
+    match args with
+    | [a, b] =>
+      match tokNat a, tokNat b with
+      | some x, some y => if y < x then .error .syntax else .ok st
+      | _, _ => .error .syntax
+    | _ => .error .syntax
+  | .intc =>
+    match constIdx args with
+    | .ok idx => if constDefined env idx st.intcN st.deadIntc st.anyIntc then .ok st else .error .undefinedConst
+    | .error x => .error x
+  | .bytec =>
+    match constIdx args with
+    | .ok idx => if constDefined env idx st.bytecN st.deadBytec st.anyBytec then .ok st else .error .undefinedConst
+    | .error x => .error x
+  | .intcBlock =>
+    .ok (if st.dead then { st with deadIntc := max st.deadIntc args.length, anyIntc := max st.anyIntc args.length }
+         else { st with intcN := args.length, anyIntc := max st.anyIntc args.length })
+  | .bytecBlock =>
+    .ok (if st.dead then { st with deadBytec := max st.deadBytec args.length, anyBytec := max st.anyBytec args.length }
+         else { st with bytecN := args.length, anyBytec := max st.anyBytec args.length })
+  | _ => .ok st
+
+/-- one instruction statement: spec lookup, the asm function's own dispatch, immediates by kind, its extra checks and its
+    effect on what the assembler knows about constant blocks -/
 def asmInstr (env : Env) (v : Nat) (st : PState) (name : String) (args : List Tok) : Except Err (PInstr × PState) :=
   match specFor env v name args.length with
   | .error x => .error x
-  | .ok s =>
-    let fn := asmFnOf env s
-    let plain (p : PInstr) : Except Err (PInstr × PState) := .ok (p, st)
-    if fn = "asmDefault" then
-      match asmDefaultImms env v s.imms args with
-      | .ok ims => plain ⟨s, ims⟩
+  | .ok s0 =>
+    if ¬ shapeOK (classOf env s0) s0 then .error .unmodelled else
+    match altSpec env v (classOf env s0) s0 args with
+    | .error x => .error x
+    | .ok (s, args') =>
+      match parseImms env v s.imms args' with
       | .error x => .error x
-    else if fn = "asmSubstring" then
-      match asmDefaultImms env v s.imms args with
       | .ok ims =>
-        match args with
-        | [a, b] =>
-          match tokNat a, tokNat b with
-          | some x, some y => if y < x then .error .syntax else plain ⟨s, ims⟩
-          | _, _ => .error .syntax
-        | _ => .error .syntax
-      | .error x => .error x
-    else if fn = "asmIntC" ∨ fn = "asmByteC" then
-      match args with
-      | [a] =>
-        match tokByte a with
+        match postAsm env (classOf env s0) st args with
         | .error x => .error x
-        | .ok idx =>
-          let r := if fn = "asmIntC" then constLoad env v "intc" idx st.intcN st.deadIntc
-                   else constLoad env v "bytec" idx st.bytecN st.deadBytec
-          match r with
-          | .ok p => plain p
-          | .error x => .error x
-      | _ => .error .syntax
-    else if fn = "asmArg" then
-      match args with
-      | [a] =>
-        match tokByte a with
-        | .error x => .error x
-        | .ok n =>
-          if n < 4 then
-            match byName env v ("arg_" ++ toString n) with
-            | some s' => plain ⟨s', []⟩
-            | none => .error .syntax
-          else plain ⟨s, [.val (.byte n)]⟩
-      | _ => .error .syntax
-    else if fn = "asmItxn" ∨ fn = "asmGitxn" then
-      let base := if fn = "asmItxn" then 1 else 2
-      if args.length = base then
-        match asmDefaultImms env v s.imms args with
-        | .ok ims => plain ⟨s, ims⟩
-        | .error x => .error x
-      else if args.length = base + 1 then
-        match byName env v (if fn = "asmItxn" then "itxna" else "gitxna") with
-        | none => .error .syntax
-        | some s' =>
-          match asmDefaultImms env v s'.imms args with
-          | .ok ims => plain ⟨s', ims⟩
-          | .error x => .error x
-      else .error .syntax
-    else if fn = "asmItxnField" ∨ fn = "asmAppParamsSet" then
-      -- name looked up among all fields of the declared group; allowed iff visible in the effective group at this version
-      match args, s.imms with
-      | [.name f], [im] =>
-        match groupOf env im.declGroup, groupOf env im.group with
-        | some gd, some ge =>
-          match fieldByName gd f with
-          | none => .error .field
-          | some fr =>
-            match ge.fields[fr.idx]? with
-            | none => .error .field
-            | some fe => if fe.name = "" ∨ v < fe.version then .error .field else plain ⟨s, [.val (.byte fr.idx)]⟩
-        | _, _ => .error .field
-      | _, _ => .error .syntax
-    else if fn = "asmBranch2B" ∨ fn = "asmBranchVarint" then
-      match args with
-      | [a] =>
-        match tokLabel a with
-        | .ok n => plain ⟨s, [.lab (fn = "asmBranch2B") n]⟩
-        | .error x => .error x
-      | _ => .error .syntax
-    else if fn = "asmSwitch" then
-      if 255 < args.length then .error .syntax else
-      match tokLabels args with
-      | .ok ns => plain ⟨s, [.labs ns]⟩
-      | .error x => .error x
-    else if fn = "asmPushInt" then
-      match args with
-      | [a] =>
-        match tokNat a with
-        | some n => plain ⟨s, [.val (.uint n)]⟩
-        | none => .error .syntax
-      | _ => .error .syntax
-    else if fn = "asmPushBytes" then
-      match args with
-      | [a] =>
-        match tokBytes a with
-        | .ok b => if env.maxStringSize < b.length then .error .syntax else plain ⟨s, [.val (.bytes b)]⟩
-        | .error x => .error x
-      | [] => .error .syntax
-      | _ => .error .unmodelled   -- two-token literal forms (base64 AAAA) are not modelled
-    else if fn = "asmPushInts" then
-      match tokNats args with
-      | .ok ns => plain ⟨s, [.val (.ints ns)]⟩
-      | .error x => .error x
-    else if fn = "asmPushBytess" then
-      match tokBytess env.maxStringSize args with
-      | .ok bs => plain ⟨s, [.val (.bytess bs)]⟩
-      | .error x => .error x
-    else if fn = "asmIntCBlock" then
-      match tokNats args with
-      | .ok ns =>
-        .ok (⟨s, [.val (.ints ns)]⟩,
-             if st.dead then { st with deadIntc := max st.deadIntc ns.length } else { st with intcN := ns.length })
-      | .error x => .error x
-    else if fn = "asmByteCBlock" then
-      match tokBytess env.maxStringSize args with
-      | .ok bs =>
-        .ok (⟨s, [.val (.bytess bs)]⟩,
-             if st.dead then { st with deadBytec := max st.deadBytec bs.length } else { st with bytecN := bs.length })
-      | .error x => .error x
-    else .error .unmodelled
+        | .ok st' => .ok (⟨s, ims⟩, st')
 
 def defineLabel (st : PState) (n : LName) : Except Err PState :=
   if st.labels.any (fun p => p.1 = n) then .error .syntax
@@ -1092,6 +1165,6 @@ def genEnv : Env where
   maxStringSize := Gen.AsmTable.maxStringSize
   backBranchVersion := Gen.AsmTable.backBranchEnabledVersion
   initWidth := Gen.AsmTable.varintBranchInitialSize
-  deadDefines := Gen.AsmTable.deadCBlockDefines
+  constRule := Gen.AsmTable.constRule
 
 end Model.AsmFormat
